@@ -36,7 +36,9 @@ func runC10(c *Ctx) {
 		fn := s.call.Parent()
 		key := fmt.Sprintf("%s/%s", fnName(fn), ed.siteName(s.call))
 		if !s.res.ok {
-			key += "!" + s.res.kind
+			// failing sites are keyed by enclosing function + kind only (not by callee), so that extracting or
+			// renaming the called helper does not turn a known finding into a new violation
+			key = fnName(fn) + "!" + s.res.kind + "-write-error"
 		}
 		pos := s.call.Pos()
 		c.Check("C10-R1", key, pos, s.res.ok, s.res.detail)
